@@ -17,7 +17,7 @@
 //! variants: structural equality = pattern matching); they are used for comparison only, never to generate code.
 
 use crate::srcmodel as sm;
-use std::collections::BTreeSet;
+use std::collections::{BTreeMap, BTreeSet};
 use syn::visit_mut::{self, VisitMut};
 
 pub struct Normalizer;
@@ -141,6 +141,64 @@ fn cond_as_test(cond: &syn::Expr) -> Option<(syn::Expr, syn::Pat, bool)> {
         syn::Expr::MethodCall(mc) if mc.args.is_empty() && mc.method == "is_some" => Some(((*mc.receiver).clone(), parse_pat("Some(_)")?, false)),
         _ => None,
     }
+}
+
+/// `X[..n] == [E; n]` or `X[..n] == [E0, .., En-1]` (either side) as a conjunction of element comparisons.
+fn slice_compare_as_elements(b: &syn::ExprBinary) -> Option<syn::Expr> {
+    fn prefix_slice(e: &syn::Expr) -> Option<(syn::Expr, usize)> {
+        if let syn::Expr::Index(ix) = e {
+            if let syn::Expr::Range(r) = &*ix.index {
+                if r.start.is_none() && matches!(r.limits, syn::RangeLimits::HalfOpen(_)) {
+                    let n: usize = sm::tsc(r.end.as_ref()?).parse().ok()?;
+                    return Some(((*ix.expr).clone(), n));
+                }
+            }
+        }
+        None
+    }
+    fn elements(e: &syn::Expr) -> Option<Vec<syn::Expr>> {
+        match e {
+            syn::Expr::Repeat(r) => {
+                let n: usize = sm::tsc(&r.len).parse().ok()?;
+                // the repeated element is evaluated once per use below: it must be free of effects
+                let t = sm::tsc(&r.expr);
+                if t.contains("()") || t.contains('!') || t.contains('{') {
+                    return None;
+                }
+                Some(vec![(*r.expr).clone(); n])
+            }
+            syn::Expr::Array(a) => Some(a.elems.iter().cloned().collect()),
+            syn::Expr::Paren(p) => elements(&p.expr),
+            _ => None,
+        }
+    }
+    let ((base, n), elems) = match (prefix_slice(&b.left), elements(&b.right)) {
+        (Some(s), Some(e)) => (s, e),
+        _ => match (prefix_slice(&b.right), elements(&b.left)) {
+            (Some(s), Some(e)) => (s, e),
+            _ => return None,
+        },
+    };
+    if n != elems.len() || n == 0 || n > 4 {
+        return None;
+    }
+    let ne = matches!(b.op, syn::BinOp::Ne(_));
+    let mut out: Option<syn::Expr> = None;
+    for (k, el) in elems.into_iter().enumerate() {
+        let idx = syn::Index::from(k);
+        let one: syn::Expr = if ne { syn::parse_quote!(#base[#idx] != #el) } else { syn::parse_quote!(#base[#idx] == #el) };
+        out = Some(match out {
+            None => one,
+            Some(prev) => {
+                if ne {
+                    syn::parse_quote!(#prev || #one)
+                } else {
+                    syn::parse_quote!(#prev && #one)
+                }
+            }
+        });
+    }
+    out
 }
 
 // ---------------------------------------------------------------- pattern canonicalisation
@@ -624,6 +682,13 @@ impl VisitMut for Normalizer {
                     b.right = Box::new(l);
                     b.op = op;
                 }
+                // `X[..n] == [E; n]` / `X[..n] == [A, B]`  ->  `X[0] == E && X[1] == E` (slice equality of equal
+                // lengths is element-wise equality; `!=` becomes the disjunction of `!=`)
+                if matches!(b.op, syn::BinOp::Eq(_) | syn::BinOp::Ne(_)) {
+                    if let Some(r) = slice_compare_as_elements(b) {
+                        replacement = Some(r);
+                    }
+                }
             }
             syn::Expr::Unary(u) if matches!(u.op, syn::UnOp::Not(_)) => {
                 let mut inner: &syn::Expr = &u.expr;
@@ -914,8 +979,202 @@ fn inline_new_helpers(f: &mut syn::File, reviewed: &BTreeSet<String>) {
     }
 }
 
+/// A private function or method that is not in the reviewed decomposition and whose body is one expression without
+/// `return` / `?` (a constructor of an error value, a predicate, a projection): every call `self.h(args)` /
+/// `Self::h(args)` / `h(args)` with side-effect-free arguments is replaced by the body with the parameters
+/// substituted, and the helper is dropped once no call is left. Extracting an expression into a helper is then read
+/// as the unextracted expression.
+fn inline_expression_helpers(f: &mut syn::File, reviewed: &BTreeSet<String>) {
+    struct Cand {
+        name: String,
+        params: Vec<String>,
+        body: syn::Expr,
+        method: bool,
+    }
+    fn simple_attrs(attrs: &[syn::Attribute]) -> bool {
+        attrs.iter().all(|a| a.path().is_ident("doc") || a.path().is_ident("inline") || a.path().is_ident("must_use"))
+    }
+    fn cand_of(sig: &syn::Signature, vis: &syn::Visibility, attrs: &[syn::Attribute], block: &syn::Block, reviewed: &BTreeSet<String>) -> Option<Cand> {
+        let name = sig.ident.to_string();
+        if reviewed.contains(&name) || !matches!(vis, syn::Visibility::Inherited) || !sig.generics.params.is_empty() || !simple_attrs(attrs) || sig.asyncness.is_some() || sig.unsafety.is_some() {
+            return None;
+        }
+        if matches!(sig.output, syn::ReturnType::Default) {
+            return None;
+        }
+        let body = match block.stmts.as_slice() {
+            [syn::Stmt::Expr(e, None)] => e.clone(),
+            _ => return None,
+        };
+        let bt = sm::tsc(&body);
+        if bt.contains("return") || bt.contains('?') || bt.contains(&format!("{}(", name)) {
+            return None;
+        }
+        let mut params = vec![];
+        let mut method = false;
+        for a in &sig.inputs {
+            match a {
+                syn::FnArg::Receiver(r) => {
+                    if r.reference.is_none() {
+                        return None;
+                    }
+                    method = true;
+                }
+                syn::FnArg::Typed(pt) => match &*pt.pat {
+                    syn::Pat::Ident(pi) if pi.by_ref.is_none() && pi.subpat.is_none() => params.push(pi.ident.to_string()),
+                    _ => return None,
+                },
+            }
+        }
+        // a parameter that is rebound inside the body (closure parameter, match binding) defeats plain substitution
+        for p in &params {
+            let re = regex::Regex::new(&format!(r"\|{}\||\b{}=>|\b{}@", regex::escape(p), regex::escape(p), regex::escape(p))).unwrap();
+            if re.is_match(&bt) {
+                return None;
+            }
+        }
+        Some(Cand { name, params, body, method })
+    }
+    fn pure_arg(e: &syn::Expr) -> bool {
+        match e {
+            syn::Expr::Path(_) | syn::Expr::Lit(_) => true,
+            syn::Expr::Field(f) => pure_arg(&f.base),
+            syn::Expr::Index(i) => pure_arg(&i.expr) && pure_arg(&i.index),
+            syn::Expr::Paren(p) => pure_arg(&p.expr),
+            syn::Expr::Reference(r) => pure_arg(&r.expr),
+            syn::Expr::Unary(u) => pure_arg(&u.expr),
+            syn::Expr::Cast(c) => pure_arg(&c.expr),
+            _ => false,
+        }
+    }
+    struct Subst<'a> {
+        map: &'a BTreeMap<String, syn::Expr>,
+    }
+    impl<'a> VisitMut for Subst<'a> {
+        fn visit_expr_mut(&mut self, e: &mut syn::Expr) {
+            if let Some(id) = sm::as_ident(e) {
+                if let Some(r) = self.map.get(&id) {
+                    *e = match r {
+                        syn::Expr::Path(_) | syn::Expr::Lit(_) | syn::Expr::Field(_) | syn::Expr::Index(_) | syn::Expr::Paren(_) => r.clone(),
+                        other => syn::Expr::Paren(syn::ExprParen { attrs: vec![], paren_token: Default::default(), expr: Box::new(other.clone()) }),
+                    };
+                    return;
+                }
+            }
+            visit_mut::visit_expr_mut(self, e);
+        }
+        fn visit_macro_mut(&mut self, m: &mut syn::Macro) {
+            // identifiers inside macro arguments (format!, matches!) are substituted token-wise
+            fn go(ts: proc_macro2::TokenStream, map: &BTreeMap<String, syn::Expr>) -> proc_macro2::TokenStream {
+                let mut out = proc_macro2::TokenStream::new();
+                for tt in ts {
+                    match tt {
+                        proc_macro2::TokenTree::Ident(ref i) if map.contains_key(&i.to_string()) => {
+                            let r = &map[&i.to_string()];
+                            out.extend(quote::quote!((#r)));
+                        }
+                        proc_macro2::TokenTree::Group(g) => {
+                            let ng = proc_macro2::Group::new(g.delimiter(), go(g.stream(), map));
+                            out.extend(std::iter::once(proc_macro2::TokenTree::Group(ng)));
+                        }
+                        other => out.extend(std::iter::once(other)),
+                    }
+                }
+                out
+            }
+            m.tokens = go(m.tokens.clone(), self.map);
+        }
+    }
+    struct Inline<'a> {
+        cands: &'a [Cand],
+        done: usize,
+    }
+    impl<'a> Inline<'a> {
+        fn expand(&self, c: &Cand, args: Vec<syn::Expr>) -> Option<syn::Expr> {
+            if args.len() != c.params.len() || !args.iter().all(pure_arg) {
+                return None;
+            }
+            let map: BTreeMap<String, syn::Expr> = c.params.iter().cloned().zip(args).collect();
+            let mut body = c.body.clone();
+            Subst { map: &map }.visit_expr_mut(&mut body);
+            Some(match body {
+                syn::Expr::Struct(_) | syn::Expr::Call(_) | syn::Expr::MethodCall(_) | syn::Expr::Path(_) | syn::Expr::Lit(_) | syn::Expr::Macro(_) | syn::Expr::Field(_) | syn::Expr::Index(_) | syn::Expr::Paren(_) | syn::Expr::Tuple(_) => body,
+                other => syn::Expr::Paren(syn::ExprParen { attrs: vec![], paren_token: Default::default(), expr: Box::new(other) }),
+            })
+        }
+    }
+    impl<'a> VisitMut for Inline<'a> {
+        fn visit_expr_mut(&mut self, e: &mut syn::Expr) {
+            visit_mut::visit_expr_mut(self, e);
+            let repl = match e {
+                syn::Expr::MethodCall(mc) if sm::tsc(&mc.receiver) == "self" && mc.turbofish.is_none() => {
+                    let name = mc.method.to_string();
+                    self.cands.iter().find(|c| c.method && c.name == name).and_then(|c| self.expand(c, mc.args.iter().cloned().collect()))
+                }
+                syn::Expr::Call(call) => {
+                    let ft = sm::tsc(&call.func);
+                    let (is_assoc, name) = match ft.rsplit_once("::") {
+                        Some((q, n)) if q == "Self" || !q.contains("::") => (true, n.to_string()),
+                        Some(_) => (false, String::new()),
+                        None => (false, ft.clone()),
+                    };
+                    if name.is_empty() {
+                        None
+                    } else {
+                        self.cands.iter().find(|c| !c.method && c.name == name && (is_assoc || !ft.contains("::"))).and_then(|c| self.expand(c, call.args.iter().cloned().collect()))
+                    }
+                }
+                _ => None,
+            };
+            if let Some(r) = repl {
+                *e = r;
+                self.done += 1;
+            }
+        }
+    }
+    for _round in 0..3 {
+        let mut cands: Vec<Cand> = vec![];
+        for it in &f.items {
+            match it {
+                syn::Item::Impl(i) if i.trait_.is_none() => {
+                    for ii in &i.items {
+                        if let syn::ImplItem::Fn(m) = ii {
+                            cands.extend(cand_of(&m.sig, &m.vis, &m.attrs, &m.block, reviewed));
+                        }
+                    }
+                }
+                syn::Item::Fn(func) => cands.extend(cand_of(&func.sig, &func.vis, &func.attrs, &func.block, reviewed)),
+                _ => {}
+            }
+        }
+        if cands.is_empty() {
+            return;
+        }
+        let mut inl = Inline { cands: &cands, done: 0 };
+        inl.visit_file_mut(f);
+        if inl.done == 0 {
+            return;
+        }
+        // drop helpers that are no longer called (or mentioned) anywhere
+        let names: Vec<String> = cands.iter().map(|c| c.name.clone()).collect();
+        for name in names {
+            let re = regex::Regex::new(&format!(r"\b{}\b", regex::escape(&name))).unwrap();
+            let whole = sm::ts(&*f);
+            if re.find_iter(&whole).count() == 1 {
+                for it in f.items.iter_mut() {
+                    if let syn::Item::Impl(i) = it {
+                        i.items.retain(|ii| !matches!(ii, syn::ImplItem::Fn(m) if m.sig.ident == name));
+                    }
+                }
+                f.items.retain(|it| !matches!(it, syn::Item::Fn(func) if func.sig.ident == name));
+            }
+        }
+    }
+}
+
 pub fn normalize_file_with(f: &mut syn::File, reviewed_private_fns: Option<&BTreeSet<String>>) {
     if let Some(r) = reviewed_private_fns {
+        inline_expression_helpers(f, r);
         inline_new_helpers(f, r);
     }
     normalize_file(f);
